@@ -430,6 +430,77 @@ func ruleR022(c *Ctx) {
 			}
 			return true
 		})
+		// regrouping in place: a store into an operand of an existing Operate node (n.A = .., n.B = .., or *p = .. with
+		// p taken from &n.A / &n.B) merges a constant into the node n. That is only sound if n itself is a node of the same
+		// (commutative) operator as the node being optimized: the test has to name n, not just the first node of a chain
+		// the code walks down
+		m := 0
+		ast.Inspect(fd.Body, func(x ast.Node) bool {
+			as, ok := x.(*ast.AssignStmt)
+			if !ok || as.Tok != token.ASSIGN {
+				return true
+			}
+			for _, l := range as.Lhs {
+				var node ast.Expr // the Operate node that is modified
+				switch t := ast.Unparen(l).(type) {
+				case *ast.SelectorExpr:
+					if (t.Sel.Name == "A" || t.Sel.Name == "B") && isNamed(info.TypeOf(t.X), modPath, "Operate") {
+						node = t.X
+					}
+				case *ast.StarExpr:
+					// *operand with operand ranging over []*AST{&n.A, &n.B} or assigned &n.A
+					if id, ok := ast.Unparen(t.X).(*ast.Ident); ok {
+						var srcs []ast.Expr
+						if rs := rangeOver(c, info, id); rs != nil {
+							if cl, ok := ast.Unparen(rs.X).(*ast.CompositeLit); ok {
+								srcs = append(srcs, cl.Elts...)
+							}
+						}
+						if v, ok := info.ObjectOf(id).(*types.Var); ok {
+							if rhs, has := singleDefExpr[v]; has {
+								srcs = append(srcs, rhs)
+							}
+						}
+						for _, e := range srcs {
+							if u, ok := ast.Unparen(e).(*ast.UnaryExpr); ok && u.Op == token.AND {
+								if sel, ok := ast.Unparen(u.X).(*ast.SelectorExpr); ok && (sel.Sel.Name == "A" || sel.Sel.Name == "B") && isNamed(info.TypeOf(sel.X), modPath, "Operate") {
+									node = sel.X
+								}
+							}
+						}
+					}
+				}
+				if node == nil {
+					continue
+				}
+				m++
+				key := fmt.Sprintf("%s#regroup-in-place[%d]", fname, m)
+				nodeText := nodeStr(c.Fset, node)
+				same := c.hasGuard(as, true, func(e ast.Expr) bool {
+					be, ok := e.(*ast.BinaryExpr)
+					if !ok || be.Op != token.EQL {
+						return false
+					}
+					sx, ok1 := ast.Unparen(be.X).(*ast.SelectorExpr)
+					sy, ok2 := ast.Unparen(be.Y).(*ast.SelectorExpr)
+					if !ok1 || !ok2 || sx.Sel.Name != "Operator" || sy.Sel.Name != "Operator" {
+						return false
+					}
+					a, b := nodeStr(c.Fset, sx.X), nodeStr(c.Fset, sy.X)
+					return a != b && (a == nodeText || b == nodeText)
+				})
+				comm := c.hasFlagGuard(fg, as, nil, "Operator", "IsCommutative", 0)
+				switch {
+				case same && comm:
+					c.OK(key, as.Pos(), "an operand of %s is replaced only under the tests that the operator is commutative and that %s has the same operator", nodeText, nodeText)
+				case !comm:
+					c.Violation(key, as.Pos(), "the optimizer replaces an operand of the existing node %s without the IsCommutative guard", nodeText)
+				default:
+					c.Violation(key, as.Pos(), "the optimizer merges a constant into an operand of the existing node %s, but no test on the way compares the operator of %s itself with the operator being optimized (a test of the first node of the chain does not cover the nodes below it): ((a*2)+b)+3 becomes (a*5)+b", nodeText, nodeText)
+				}
+			}
+			return true
+		})
 	}
 }
 
